@@ -219,30 +219,52 @@ def t1(ck: Check) -> None:
     sites(fp, {0: False, 1: True}, "fixed-point encoding")
     rs = prog.fm(TRAP, "compute_fixed_point_reduced_STG_async")
     sites(rs, {0: False, 1: True}, "fixed-point encoding (retained set)")
-    # decoders
-    for q, want, fam in (("_clingo_model_to_space", {True: 0, False: 1}, "trap-space decoder"),
-                         ("_clingo_model_to_fixed_point", {True: 1, False: 0}, "fixed-point decoder")):
-        fm = prog.fm(TRAP, q)
-        stores = [n for n in own_walk(fm.f.node) if isinstance(n, ast.Assign) and isinstance(n.targets[0], ast.Subscript)]
-        probs = []
-        if not stores:
-            probs.append("no value store")
-        posname = "is_positive"
-        for n_ in own_walk(fm.f.node):
-            if isinstance(n_, ast.Assign) and isinstance(n_.targets[0], ast.Tuple) and len(n_.targets[0].elts) == 2 \
-                    and isinstance(n_.value, ast.Call) and callee_name(n_.value) == "place_to_variable":
-                posname = text(n_.targets[0].elts[1])
-        for s in stores:
-            tbl = {}
-            for pol in (True, False):
-                try:
-                    tbl[pol] = ev(s.value, {posname: pol})
-                except Unknown:
-                    tbl = None
-                    break
-            if tbl != want:
-                probs.append(f"decodes positive/negative atoms to {tbl}, expected {want}")
-        ck.ob("T1", fm, stores[0] if stores else fm.f.node, not probs, "; ".join(probs) if probs else f"{fam}: {want}", key=q)
+    # decoders: what is handed to the caller's callback is the model decoded with the polarity of the encoding
+    from .. import peval
+    for host, want, fam in (("trappist_async", {True: 0, False: 1}, "trap-space decoder"),
+                            ("compute_fixed_point_reduced_STG_async", {True: 1, False: 0}, "fixed-point decoder")):
+        hm = prog.fm(TRAP, host)
+        cb = "on_solution" if "on_solution" in hm.f.params() else None
+        calls = [c for c in own_walk(hm.f.node) if isinstance(c, ast.Call) and isinstance(c.func, ast.Name) and c.func.id == cb and c.args]
+        if not calls:
+            raise AnalysisError(f"anchor vanished: the callback of {host} is never called")
+        for c in calls:
+            cn = hm.cfgn(c)
+            arg = hm.deref(c.args[0], cn)
+            probs = []
+            dec = prog.repo.resolve_call(hm.f, arg) if isinstance(arg, ast.Call) else None
+            if not dec or dec not in prog.repo.functions:
+                probs.append(f"the callback receives `{text(arg)[:50]}`, which is not a model decoded by a function of the package")
+                ck.ob("T1", hm, hm.f.stmt_of(c), False, "; ".join(probs), key=f"decoder of {host}")
+                continue
+            df = prog.repo.functions[dec]
+            env = {}
+            for i, p_ in enumerate(df.params()):
+                a_ = call_arg(arg, i, p_)
+                if isinstance(a_, ast.Constant):
+                    env[p_] = a_.value
+                elif a_ is None and p_ in df.param_defaults() and isinstance(df.param_defaults()[p_], ast.Constant):
+                    env[p_] = df.param_defaults()[p_].value
+            node = peval.specialise(df.node, env) if env else df.node
+            stores = [n for n in own_walk(node) if isinstance(n, ast.Assign) and isinstance(n.targets[0], ast.Subscript)]
+            if not stores:
+                probs.append("no value store")
+            posname = "is_positive"
+            for n_ in own_walk(node):
+                if isinstance(n_, ast.Assign) and isinstance(n_.targets[0], ast.Tuple) and len(n_.targets[0].elts) == 2 \
+                        and isinstance(n_.value, ast.Call) and callee_name(n_.value) == "place_to_variable":
+                    posname = text(n_.targets[0].elts[1])
+            for s_ in stores:
+                tbl = {}
+                for pol in (True, False):
+                    try:
+                        tbl[pol] = ev(s_.value, {posname: pol, **env})
+                    except Unknown:
+                        tbl = None
+                        break
+                if tbl != want:
+                    probs.append(f"decodes positive/negative atoms to {tbl}, expected {want}")
+            ck.ob("T1", hm, hm.f.stmt_of(c), not probs, "; ".join(probs) if probs else f"{fam}: {want}", key=f"decoder of {host}")
     # retained-set reduction deletes succs - preds of the retained place (read symbolically)
     from .symstr import SymEval
     f = rs.f
@@ -325,6 +347,13 @@ def t3(ck: Check) -> None:
             probs.append("result callback not found")
         else:
             cb = prog.model(cbs[0])
+            # free variables of the callback that merely hold the limit (`x = solution_limit` once in the enclosing function)
+            for a_ in own_walk(f.node):
+                if isinstance(a_, ast.Assign) and len(a_.targets) == 1 and isinstance(a_.targets[0], ast.Name) \
+                        and isinstance(a_.value, ast.Name) and a_.value.id == "solution_limit":
+                    nm_ = a_.targets[0].id
+                    if sum(1 for z in own_walk(f.node) if isinstance(z, ast.Name) and z.id == nm_ and isinstance(z.ctx, ast.Store)) == 1:
+                        ren.setdefault(nm_, "solution_limit")
             app = [n for n in own_walk(cb.f.node) if isinstance(n, ast.Call) and isinstance(n.func, ast.Attribute) and n.func.attr == "append"]
             res = text(app[0].func.value) if app else None
             res = ren.get(res, res)
@@ -333,6 +362,8 @@ def t3(ck: Check) -> None:
 
             def key0(e):
                 t_ = text(e)
+                if isinstance(e, ast.Call) and callee_name(e) == "len" and e.args:
+                    return f"len({key0(e.args[0])})"
                 return ren.get(t_, t_)
             tr0 = logic.Translator(key0, numeric={"solution_limit"})
             final = [r for r in own_walk(f.node) if isinstance(r, ast.Return) and isinstance(r.value, ast.Name)]
@@ -446,6 +477,17 @@ def _clauses(prog, fm: FuncModel, spec: dict | None):
         if isinstance(c, ast.Call) and isinstance(c.func, ast.Attribute) and c.func.attr == "add" and text(c.func.value) == ctl and c.args:
             cn = g.cfgn(c)
             a = c.args[-1]
+            # deferred emission: the rules were collected in a list first (`for rule in rules: ctl.add(rule)`)
+            if isinstance(a, ast.Name):
+                lps = [l for l in g.cfg.enclosing_loops(cn) if isinstance(l, ast.For)]
+                if lps and isinstance(lps[0].target, ast.Name) and lps[0].target.id == a.id:
+                    col = se.collection(lps[0].iter, g.cfg.loop_header[lps[0]])
+                    if col:
+                        outer = se.cond(g.cfg.loop_header[lps[0]])
+                        inner = se.cond(cn, local=True) if False else logic.TRUE
+                        for el, cnd in col:
+                            out.append((c, el, logic.And(outer, cnd), cn))
+                        continue
             t = a.value if isinstance(a, ast.Constant) and isinstance(a.value, str) else se.val(a, cn)
             out.append((c, t, se.cond(cn), cn))
     return out, se, g
